@@ -12,6 +12,9 @@ PREDICATES = {
     and clause in ("genbank-description-differs", "genbank-not-a-fixed-point", "json-description-differs", "json-not-a-fixed-point"),
     # free-text qualifier values longer than a GenBank line without a space to wrap at
     "C10-F2": lambda case, clause: case.get("sideload") == "unbreakable-values" and clause == "genbank-description-differs",
+    # the same root cause as C10-F2 seen through a region file
+    "C12-F2": lambda case, clause: case.get("sideload") == "unbreakable-values"
+    and clause in ("feature-missing-or-shifted", "feature-unexpected", "subregions-differ"),
     # a Prepeptide on a gene that a sideloaded region boundary cuts
     "C12-F1": lambda case, clause: "prepeptide" in case.get("extras", ()) and clause == "region-file-not-loadable"
     and case.get("sideload") in ("two-subs", "origin-sub", "origin-subs"),
